@@ -32,6 +32,8 @@ PAT = [
     ("assert", re.compile(r"\b(debug_)?assert(_eq|_ne)?!\s*\(")),
     ("todo", re.compile(r"\b(todo|unimplemented)!\s*\(")),
     ("index", re.compile(r"[A-Za-z0-9_\)\]]\[[^\]\n]+\]")),
+    ("timer-insert", re.compile(r"deadlines\.insert\(")),
+    ("rem-div", re.compile(r"[%/]\s*self\.[a-z_]+(\.len\(\))?")),
     ("time-arith", re.compile(r"(Instant::now\(\)|SystemTime::now\(\)|\bnow\b)\s*[+-]\s|[+-]\s*(Duration::|crate::util::MAX_TIMEOUT)")),
 ]
 
